@@ -525,6 +525,21 @@ pub mod verif {
     pub fn multiply_frac(x: u128, n: u128, d: u128) -> u128 {
         super::multiply_frac(x, num::rational::Ratio::new(n, d))
     }
+
+    /// The phases of `preseal_melmint`, one at a time.
+    pub fn phase<C: novasmt::ContentAddrStore>(
+        name: &str,
+        state: crate::UnsealedState<C>,
+    ) -> crate::UnsealedState<C> {
+        match name {
+            "create_builtins" => super::create_builtins(state),
+            "swaps" => super::process_swaps(state),
+            "deposits" => super::process_deposits(state),
+            "withdrawals" => super::process_withdrawals(state),
+            "pegging" => super::process_pegging(state),
+            _ => panic!("unknown melmint phase"),
+        }
+    }
 }
 
 #[cfg(test)]
